@@ -918,6 +918,7 @@ func (r *Run) opRotateGlobal(st Step) {
 		}
 	}
 	r.noUsableSecret = !usable
+	r.L.ShortCurrentSecret = k.Secret != UnsetSecret && len(k.Secret) < 32
 	r.W.Cfg.GlobalSecret = []byte(k.Secret)
 	if k.Secret == UnsetSecret {
 		r.W.Cfg.GlobalSecret = nil
@@ -943,6 +944,8 @@ func (r *Run) opRotateGlobal(st Step) {
 				// neither the current nor any rotated secret is a usable (>= 32 byte) secret: nothing authenticates any more
 				r.L.Kill(c, Dead, "C06")
 			} else if r.shortSecret || r.shortRotated {
+				// (while the CURRENT secret is the short one, Ledger.ShortCurrentSecret additionally expects every opaque
+				// credential to be refused; what is honoured again afterwards stays unspecified)
 				c.Unspec = true // a too-short current secret is refused; what still validates under the rotated list is not pinned down
 			} else if !valid[c.Extra["minted_under"]] {
 				r.L.Kill(c, Dead, "C06")
